@@ -500,21 +500,39 @@ def _check_retry(run, repo, world, mod):
 def _check_reconnect(run, repo, world, mod):
     run.rule("R-RECONNECT", "failed open schedules _reconnect; success "
              "resets the attempt counter and repeats the handshake")
+    from .. import astq
     o, cfn = _fn(world, HID + ".hid", "connect")
-    t = ast.unparse(cfn)
+
+    def arg_is_call(c, name):
+        return any(isinstance(a, ast.Call) and unparse(a.func) == name
+                   for a in c.args)
+    sched = [c for c in astq.calls_to(cfn, "create_task")
+             if arg_is_call(c, "self._reconnect")]
+    reset = [v for v in astq.stores(cfn).get("self._reconnect_count", [])
+             if isinstance(v, ast.Constant) and v.value == 0]
+    hand = astq.calls_to(cfn, "_initialise_device")
+    told = [c for c in astq.calls_to(cfn, "_invoke") if c.args and
+            isinstance(c.args[0], ast.Constant) and
+            c.args[0].value == "connected"]
     run.ob("R-RECONNECT", HID + ".hid.connect",
-           "self._reconnect_task = asyncio.create_task(self._reconnect())"
-           in t and "self._reconnect_count = 0" in t and
-           "self._initialise_device()" in t and
-           "self.connection_status_callback._invoke('connected')" in t,
+           bool(sched) and bool(reset) and bool(hand) and bool(told),
            "connect() must schedule a reconnection attempt on failure and, "
            "on success, reset the counter, start the handshake and report "
-           "'connected'", where(mod, cfn))
+           "'connected' (found: schedule=%d reset=%d handshake=%d "
+           "report=%d)" % (len(sched), len(reset), len(hand), len(told)),
+           where(mod, cfn))
     o, dfn = _fn(world, HID + ".hid", "disconnect")
-    t = ast.unparse(dfn)
+    rp = dfn.args.args[1].arg if len(dfn.args.args) > 1 else "reconnect"
+    guarded = False
+    for n in ast.walk(dfn):
+        if isinstance(n, ast.If) and unparse(n.test) == rp:
+            guarded = guarded or any(
+                isinstance(c, ast.Call) and unparse(c.func) ==
+                "self._reconnect" for x in n.body for c in ast.walk(x))
+    cancels = [c for c in astq.calls_to(dfn, "cancel")
+               if unparse(c.func.value) == "self._reconnect_task"]
     run.ob("R-RECONNECT", HID + ".hid.disconnect#schedules",
-           "if reconnect:" in t and "self._reconnect()" in t and
-           "self._reconnect_task.cancel()" in t,
+           guarded and bool(cancels),
            "disconnect(reconnect=True) must schedule _reconnect and cancel a "
            "pending one", where(mod, dfn))
 
